@@ -972,6 +972,13 @@ impl<'a> Run<'a> {
                     }
                     continue;
                 }
+                // "first output 1" of EfficiencyRatio is the first price measured against the zero the window starts from: undefined
+                // at price 0 -- which the specification says on the lattice (input 0), and which a shifted unit can also produce
+                // from a non-zero lattice value (a*k + b = 0)
+                if l.cfg.kind == "ER" && l.t == 1 && l.last_in == 0.0 {
+                    ctx.stats.skipped_undef += 1;
+                    continue;
+                }
                 let g = got[k];
                 let exp = image(&unit, r, dim);
                 let (err, tol, what) = match cls {
